@@ -1,6 +1,9 @@
 """Growth beyond the listed properties (not a property check, not in MANIFEST.checks):
    * spec/Quantized — QuantizedTensorList / DequantizeQuantizedTensorListContext as a state machine: model checked by TLC, and
      TLC -simulate behaviours replayed into the real class with the abstract state compared after every action.
+   * checkpoints on the LIVE optimizer (ShampooOpt!Save / Load, SetHyperAll): model checked with faults and hyper moves, and
+     TLC behaviours with Save / Load replayed into the real optimizer (state restored bitwise, param_groups restored, float64
+     reference rolled back with it), every recorded trace validated by spec/ShampooTrace.
 Run with  ./check GROWTH  (writes evidence/GROWTH.json, exit code as for property checks)."""
 from __future__ import annotations
 
@@ -80,6 +83,31 @@ def replay_behaviour(beh, same):
     return None
 
 
+def live_load(ctx, quick, rng):
+    from harness import behaviours, family
+    from harness.drivers import shampoo_props as sp
+    from harness.drivers.C01 import G
+    hm = [(1, "mom", 0), (1, "mom", 2), (1, "wd", 1), (0, "lr", 2)]
+    for name, cfg, calls, faults, moves in (
+            ("1 group (2,1 blocks), freq 2 start 3, grafting, Save/Load, hyper, 5 calls", [G([1, 1, 2], [2, 2, 1], start=3, graft=True)], 5, ("fail",), hm),
+            ("2 groups, freq 2/1, Save/Load, scheduler moves, 5 calls", [G([1, 1], [2, 2]), G([1], [2], freq=1, start=1, hasMom=False)], 5, (), [(0, "lr", 2), (0, "wd", 1)]),
+            ("SOAP 2 blocks, failures, Save/Load, 5 calls", [G([1, 2], [2, 2], freq=1, start=1, kind="soap", hasFilt=True, hasMom=False, tol=1)], 5, ("fail",), ())):
+        res = behaviours.check(cfg, calls if quick else calls + 1, faults=faults, moves=moves, ckpt=True,
+                               invariants=("NoViolation", "TypeOK", "CkptOK"), tag="GROWTH-ckpt")
+        ctx.add_tlc(res, "ShampooOpt Ckpt=TRUE: " + name)
+        if not res.ok:
+            raise tlc.TLCMachineryError(f"ShampooOpt with Save/Load violates {res.violated} {res.errors}\n" + "\n".join(res.trace)[-1500:])
+
+    def make_groups(r):
+        gs = [family.draw_group(r, r.choice(["m2x3", "v2x3", "m2x2", "t3", "s0v", "rect", "ign0", "fuse", "many"]))]
+        if r.random() < 0.4:
+            gs.append(family.draw_group(r, r.choice(["m2x2", "v2x3"])))
+        return gs
+    tasks = sp.gen_tasks(ctx, rng, 10 if quick else 60, 10 if quick else 30, make_groups, 8, ("fail",), ("mom", "b1", "wd", "lr"), ckpt=True)
+    sp.run_rt(ctx, tasks, lambda clause, p=None: True, "live_load")
+    ctx.put("behaviours_with_load", sum(1 for _, b, _ in tasks if any(e["ev"] == "Load" for e in b)))
+
+
 def run(ctx):
     quick = ctx.tier == "quick"
     rng = random.Random(ctx.seed + 99)
@@ -117,6 +145,7 @@ def run(ctx):
                               {"kind": "quantized", "op": bad[1]}, {"behaviour": beh, "same": same})
         if behs:
             ctx.sample({"same_dtype": same, "behaviour": [(e["op"], e["args"]) for e in behs[0]]})
+    live_load(ctx, quick, rng)
     ctx.put("distinct_nontrivial", int(ctx.coverage.get("evaluations", 0)))
     ctx.put("rule", "TLC model-checks spec/Quantized (context contract as action properties) and emits random behaviours that are stepped "
                     "through the real QuantizedTensorList / DequantizeQuantizedTensorListContext with the abstract state compared after every action")
